@@ -20,8 +20,8 @@ def subtreeNode (X : SchemaX) (o : VOpts) : (fuel : Nat) → Cx → (before : Li
     -- new node validation, autodelete
     let r1 := validateNew X o cx' ks
     -- add nested defaults
-    let r2 := implL X o cx' (X.kidsOf (some s)) r1.1
-    let r3 := subtreeKids X o fuel cx' [] r2.1
+    let r2 := implL X o cx'.keysOld (X.kidsOf (some s)) r1.1
+    let r3 := subtreeKids X o fuel cx'.keysOld [] r2.1
     (.inner s f m r3.1, r1.2 ++ r2.2 ++ r3.2)
   | _ + 1, _, _, t => (t, {})
 def subtreeKids (X : SchemaX) (o : VOpts) : (fuel : Nat) → Cx → (before : List DNode) → List DNode → List DNode × Out
